@@ -736,7 +736,11 @@ class Threads(EngineBase):
                         with p.oneshot():
                             for g in op["gets"]:
                                 v0 = k.version
-                                a0 = [b[1] for b in blocks_active]
+                                # a block holds the object's lock: no other
+                                # thread's block can be open at the same
+                                # time, only this thread's own one counts
+                                a0 = [b[1] for b in blocks_active
+                                      if b[0] == t]
                                 try:
                                     vals.append((g, v0, a0, ("value",
                                                              call_getter(p, g)),
@@ -891,8 +895,9 @@ class Threads(EngineBase):
                           "keys %r" % sorted(d))
                         continue
                     for name, val in d.items():
+                        # as_dict() is a block of its own (see above)
                         judge(name, ("value", val), rec["v0"],
-                              rec["active0"], rec["v1"], t, "as_dict")
+                              [], rec["v1"], t, "as_dict")
 
     def check_C04t(self, W, psutil, k, plan, records, V, probes, keys):
         for t, recs in enumerate(records):
